@@ -22,10 +22,12 @@ def sh(cmd, **kw):
 
 def main():
     pid, k = sys.argv[1], sys.argv[2]
-    src = "/tmp/seed-%s/seed_out" % pid.lower()
-    orig_wt = "/tmp/seed-%s" % pid.lower()
-    wt = "/tmp/sv-%s-%s" % (pid.lower(), k)
-    out = os.path.join(VERIF, "seeded", "%s-%s" % (pid, k))
+    # optional: source worktree of the seeding agent and the name to file the change under (second wave)
+    orig_wt = sys.argv[3] if len(sys.argv) > 3 else "/tmp/seed-%s" % pid.lower()
+    outname = sys.argv[4] if len(sys.argv) > 4 else "%s-%s" % (pid, k)
+    src = orig_wt + "/seed_out"
+    wt = "/tmp/sv-%s" % outname.lower()
+    out = os.path.join(VERIF, "seeded", outname)
     os.makedirs(out, exist_ok=True)
     log = []
 
